@@ -31,6 +31,11 @@ func someOf(c *ctx, xs []string, lo, hi int) []string {
 var ip4pool = []string{"10.0.0.1", "192.168.1.254", "8.8.8.8", "255.255.255.255", "0.0.0.0", "169.254.1.1"}
 var ipMixed = []string{"10.0.0.1", "8.8.4.4", "1.1.1.1", "2001:db8::53", "fe80::1", "::ffff:10.1.2.3", "::1", "garbage", "", "10.0.0.256", "1.2.3"}
 
+// numbers as a configuration file may spell them: decimal (also zero-padded, signed, with blanks),
+// and spellings other parsers would take for octal, hexadecimal, digit-grouped or floating point
+var mtuPool = []string{"1500", "576", "68", "9000", "65535", "0", "-1", "65536", "70000", "abc", "", "1500 ", "0x5dc",
+	"01500", "0576", "0068", "09000", "+1500", "1_500", "0o2734", "0b101", "1500.0", "1e3", " 1500", "００"}
+
 var plugSpecs = []plugSpec{
 	{"dns", true, true, func(c *ctx) []string {
 		if c.rng.Intn(3) == 0 {
@@ -48,13 +53,13 @@ var plugSpecs = []plugSpec{
 		return someOf(c, ip4pool, 1, 3)
 	}},
 	{"mtu", true, false, func(c *ctx) []string {
-		return someOf(c, []string{"1500", "576", "68", "9000", "65535", "0", "-1", "65536", "70000", "abc", "", "1500 ", "0x5dc"}, 0, 2)
+		return someOf(c, mtuPool, 0, 2)
 	}},
 	{"netmask", true, false, func(c *ctx) []string {
 		return someOf(c, []string{"255.255.255.0", "255.255.0.0", "255.255.255.255", "255.255.255.254", "128.0.0.0", "0.0.0.0", "255.0.255.0", "ffff:ff00::", "garbage", "::ffff:255.255.255.0", "255.255.255.1", ""}, 0, 2)
 	}},
 	{"lease_time", true, false, func(c *ctx) []string {
-		return someOf(c, []string{"3600s", "1h", "1500ms", "0s", "-1h", "garbage", "100000h", "1ns", "24h", "90m", "", "3600"}, 0, 2)
+		return someOf(c, []string{"3600s", "1h", "1500ms", "0s", "-1h", "garbage", "100000h", "1ns", "24h", "90m", "", "3600", "1h30m", "1.5h", "01h", "+1h", "1H", "1 h", "60", "0", "1d"}, 0, 2)
 	}},
 	{"searchdomains", true, true, func(c *ctx) []string {
 		return someOf(c, []string{"example.com", "a.b.c", "sub.example.org", "x", "", "example.com.", strings.Repeat("y", 63) + ".com", strings.Repeat("z", 64) + ".com", strings.Repeat("w", 200), "..", "a..b", "exämple.com"}, 0, 3)
@@ -64,7 +69,7 @@ var plugSpecs = []plugSpec{
 			"2001:db8::/32,2001:db8::1", "10.0.0.0/8,2001:db8::1", "2001:db8::/32,10.0.0.1", "10.0.0.0/8", "10.0.0.0/8,1.2.3.4,5", "garbage,1.2.3.4", "10.0.0.0/33,1.1.1.1", "10.0.0.0/8,garbage", "::ffff:10.0.0.0/104,10.0.0.1", ","}, 0, 3)
 	}},
 	{"ipv6only", true, false, func(c *ctx) []string {
-		return someOf(c, []string{"300s", "0s", "1800s", "garbage", "-5s", "1h", ""}, 0, 2)
+		return someOf(c, []string{"300s", "0s", "1800s", "garbage", "-5s", "1h", "", "0", "+300s", "0300s", "5m0s", "300", "1.5m"}, 0, 2)
 	}},
 	{"autoconfigure", true, false, func(c *ctx) []string {
 		return someOf(c, []string{"0", "1", "DoNotAutoConfigure", "AutoConfigure", "x", "", "2", "autoconfigure"}, 0, 2)
@@ -301,6 +306,19 @@ func (c *ctx) req6(own dhcpv6.DUID) string {
 	return fmt.Sprintf("preq6 %s %d", hx(d.ToBytes()), rmt)
 }
 
+var sweepAt = map[string]int{}
+var sweepPools = map[string][]string{
+	"mtu": mtuPool,
+	"lease_time": {"3600s", "1h", "1500ms", "0s", "-1h", "garbage", "100000h", "1ns", "24h", "90m", "", "3600", "1h30m", "1.5h", "01h", "+1h", "1H", "1 h", "60", "0", "1d"},
+	"ipv6only":   {"300s", "0s", "1800s", "garbage", "-5s", "1h", "", "0", "+300s", "0300s", "5m0s", "300", "1.5m"},
+	"netmask":    {"255.255.255.0", "255.255.0.0", "255.255.255.255", "255.255.255.254", "128.0.0.0", "0.0.0.0", "255.0.255.0", "ffff:ff00::", "garbage", "::ffff:255.255.255.0", "255.255.255.1", "", "255.255.255.00", "0xff.0xff.0xff.0", "255.255.255", "/24"},
+	"autoconfigure": {"0", "1", "DoNotAutoConfigure", "AutoConfigure", "x", "", "2", "autoconfigure", "donotautoconfigure", "01", "true"},
+	"nbp": {"tftp://10.0.0.1/boot.efi", "tftp://boot.example.com:69/pxelinux.0", "http://[2001:db8::1]/boot.ipxe", "https://host/b?params=a%20b", "http://h/x?params=", "ftp://x/y",
+		"/just/path", "host/path", "", "http://%zz", "tftp://h/f?params=p1%20p2", "HTTP://UPPER/case", "tftp://", "bootfile",
+		"tftp://10.0.0.1/my%20nbp.efi", "tftp://h/boot/nbp^2", "boot%41file", "tftp://h/\u00fc.efi", "http://h/a%20b/c^d", "tftp://h/x%2Fy", "TFTP://h/f", "tftp://h:69", "http://h"},
+	"sleep": {"1ms", "0s", "2ms", "garbage", "-1ms", "", "1us", "1", "01ms"},
+}
+
 func genPlug(c *ctx) {
 	for c.count < c.n {
 		sp := plugSpecs[c.rng.Intn(len(plugSpecs))]
@@ -316,6 +334,12 @@ func genPlug(c *ctx) {
 			args = strings.Fields(v[b2i(v6)][c.rng.Intn(len(v[b2i(v6)]))])
 		} else {
 			args = sp.args(c)
+			// every other time exactly one argument, walking through the plugin's whole pool in turn
+			// (sampling 0..2 of 25 values leaves most of them untried in a quick run)
+			if pool := sweepPools[sp.name]; pool != nil && c.rng.Intn(2) == 0 {
+				args = []string{pool[sweepAt[sp.name]%len(pool)]}
+				sweepAt[sp.name]++
+			}
 		}
 		// sometimes ask a plugin for the protocol it does not support
 		if c.rng.Intn(40) == 0 {
